@@ -1057,6 +1057,10 @@ impl GraphDatabase {
             .write(Box::new(Serialized(str.clone(), data_model.clone())))
             .await?;
         self.data_model = data_model;
+        //the parsed statements refer to the previous model
+        self.mutation_cache.clear();
+        self.query_cache.clear();
+        self.deletion_cache.clear();
 
         Ok(str)
     }
